@@ -17,7 +17,7 @@
    writes it as GFA1 and as GFA2 text and runs gfapy on it.                   *)
 EXTENDS LinearPaths, TLC
 
-CONSTANTS NSeg, MaxLinks
+CONSTANTS NSeg, MaxLinks, LawLinks
 
 VARIABLES prof, sel
 vars == <<prof, sel>>
@@ -88,8 +88,9 @@ Laws(G) == /\ ChainsWellFormed(G)
            /\ ComponentsPreserved(G)
            /\ FlipLaw(G)
            /\ LinkCount(G)
-InvLaws  == Laws(GraphOf(prof, sel))
-InvLaws2 == Laws(GraphOf2(prof, sel))
+\* (the laws are evaluated on the states with at most LawLinks dovetails)
+InvLaws  == Len(sel) <= LawLinks => Laws(GraphOf(prof, sel))
+InvLaws2 == Len(sel) <= LawLinks => Laws(GraphOf2(prof, sel))
 \* the same laws one by one (to name the law that fails)
 InvWellFormed == ChainsWellFormed(GraphOf(prof, sel))
 InvCovered    == JoinsCovered(GraphOf(prof, sel))
